@@ -70,6 +70,7 @@ func genRetentionHistory(r *rand.Rand) *plan.Plan {
 	names := []string{"ra", "rb"}[:nIdx]
 	nseg := 2 + r.IntN(5)
 	n := 0
+	newestOf := map[string][]int64{}
 	for s := 0; s < nseg; s++ {
 		for _, ix := range names {
 			if r.IntN(4) == 0 {
@@ -90,6 +91,12 @@ func genRetentionHistory(r *rand.Rand) *plan.Plan {
 			default:
 				newestAgo = int64(H)*hourMs + int64(2+r.IntN(10))*60_000
 			}
+			// one segment in three shares its newest instant with an earlier segment of the same index (bursts
+			// split over segments, re-ingested batches): ties in every ordering by time
+			if prev := newestOf[ix]; len(prev) > 0 && r.IntN(3) == 0 {
+				newestAgo = prev[r.IntN(len(prev))]
+			}
+			newestOf[ix] = append(newestOf[ix], newestAgo)
 			span = int64(r.IntN(5*hourMs/1000)) * 1000
 			var evs []json.RawMessage
 			ne := 1 + r.IntN(12)
@@ -342,6 +349,19 @@ func retentionOracle(prop string, res *RunResult) []Violation {
 				for _, ms := range msegs {
 					if ms.rotated && ms.newest*1000 <= horizon {
 						ms.deleted = true
+					}
+				}
+				// the node's three in-memory views of the rotated log segments must name the same segments after
+				// a pass (the per-index list is what searches read; the others are what the next pass reads)
+				var mem struct {
+					G []string `json:"mem_global"`
+					R []string `json:"mem_reverse"`
+					T []string `json:"mem_per_index"`
+				}
+				if json.Unmarshal(e.Data, &mem) == nil && (mem.G != nil || mem.R != nil || mem.T != nil) {
+					g, rv, t := strings.Join(mem.G, ","), strings.Join(mem.R, ","), strings.Join(mem.T, ",")
+					if g != rv || g != t {
+						vs = append(vs, Violation{Sig: prop + ":in-memory-segment-lists-disagree-after-pass", Msg: fmt.Sprintf("%s: global=[%s] reverse=[%s] per-index (read by searches)=[%s]", where, g, rv, t)})
 					}
 				}
 			case "query":
